@@ -22,6 +22,7 @@ def _const_str(node, what):
 # `_Segment = Segment`) are inlined; (b) `if not c: A else: B`, `if x is not None: A else: B`,
 # `if a != b: A else: B` become the positive test with the branches swapped; (c) in position_cursor /
 # restore_cursor the guard-clause form `if self._shape is None: return Control(NONE)` + rest is accepted.
+# (d) calls of private single-definition helpers of the same class are inlined (_inline_helpers).
 # NOT normalised (fail closed): wrapping the body of start()/stop() in `if started:` instead of the early
 # return (statements after the block would change meaning), try/finally rewritten as a context manager.
 class _SwapIfs(ast.NodeTransformer):
@@ -48,10 +49,77 @@ def _self_attr_root(node):
     return None
 
 
-def _prep(fn):
+# private helpers that ARE part of the matched vocabulary (their call is an event of its own)
+_VOCAB_HELPERS = {"_enable_redirect_io", "_disable_redirect_io"}
+
+
+def _inline_helpers(fn, cls, depth=0):
+    """(d) a statement `self._helper()` -- private method of the same class, defined once, only `self` as
+    parameter, no decorator, no `return value`, no yield, not recursive -- is replaced by the helper's
+    body, so that extracting a block into a helper (or inlining one) is invisible to the facts"""
+    import copy
+    if cls is None or depth > 3:
+        return fn
+    defs = {}
+    for n in cls.body:
+        if isinstance(n, ast.FunctionDef):
+            defs.setdefault(n.name, []).append(n)
+
+    def helper_body(call_stmt):
+        if not (isinstance(call_stmt, ast.Expr) and isinstance(call_stmt.value, ast.Call)):
+            return None
+        c = call_stmt.value
+        f = c.func
+        if not (isinstance(f, ast.Attribute) and isinstance(f.value, ast.Name) and f.value.id == "self"
+                and not c.args and not c.keywords):
+            return None
+        name = f.attr
+        if not name.startswith("_") or name.startswith("__") or name in _VOCAB_HELPERS or name == fn.name:
+            return None
+        if len(defs.get(name, [])) != 1:
+            return None
+        h = defs[name][0]
+        if h.decorator_list or len(h.args.args) != 1 or h.args.vararg or h.args.kwarg or h.args.kwonlyargs:
+            return None
+        for x in ast.walk(h):
+            if isinstance(x, (ast.Yield, ast.YieldFrom)) or (isinstance(x, ast.Return) and x.value is not None):
+                return None
+            if isinstance(x, ast.Attribute) and x.attr == name and isinstance(x.value, ast.Name) and x.value.id == "self":
+                return None      # recursive
+            if isinstance(x, ast.Return):
+                return None      # an early return would not mean the same once inlined
+        h = _inline_helpers(copy.deepcopy(h), cls, depth + 1)
+        return [st for st in h.body if not (isinstance(st, ast.Expr) and isinstance(st.value, ast.Constant))]
+
+    class Inl(ast.NodeTransformer):
+        def _block(self, stmts):
+            out = []
+            for st in stmts:
+                hb = helper_body(st)
+                if hb is not None:
+                    out += hb
+                else:
+                    out.append(self.visit(st))
+            return out
+
+        def generic_visit(self, node):
+            for field in ("body", "orelse", "finalbody"):
+                v = getattr(node, field, None)
+                if isinstance(v, list) and v and isinstance(v[0], ast.stmt):
+                    setattr(node, field, self._block(v))
+            if isinstance(node, ast.Try):
+                for h in node.handlers:
+                    h.body = self._block(h.body)
+            return node
+
+    return Inl().visit(fn)
+
+
+def _prep(fn, cls=None):
     """canonical copy of a FunctionDef (see above)"""
     import copy
     fn = copy.deepcopy(fn)
+    fn = _inline_helpers(fn, cls)
     assigned_attrs, name_count = set(), {}
     for n in ast.walk(fn):
         targets = []
@@ -98,7 +166,7 @@ def _prep(fn):
 def _cursor_fn(cls, name):
     """`if self._shape is not None: _, height = self._shape; return Control(HEAD + UNIT * (height+off))`
     `return Control("")`  ->  (head, unit, off, none)"""
-    fn = _prep(find_func(cls.body, name))
+    fn = _prep(find_func(cls.body, name), cls)
     body = [s for s in fn.body if not (isinstance(s, ast.Expr) and isinstance(s.value, ast.Constant))]
     # guard-clause form: `if self._shape is None: return Control(NONE)` + rest  ==  `if ... is not None: rest` + return
     if (len(body) >= 2 and isinstance(body[0], ast.If) and not body[0].orelse and len(body[0].body) == 1
@@ -282,7 +350,7 @@ def _restores_overflow(events):
 def _final_room(lr_cls):
     """_LiveRender.__rich_console__: which height is a frame cropped to?  False: console.size.height;
     True: one row less for the last frame of a transient display (not started any more)."""
-    fn = _prep(find_func(lr_cls.body, "__rich_console__"))
+    fn = _prep(find_func(lr_cls.body, "__rich_console__"), lr_cls)
     withs = [s for s in fn.body if isinstance(s, ast.With)]
     if len(withs) != 1 or _src(withs[0].items[0].context_expr) != "self._live._lock":
         raise Untranslatable("_LiveRender.__rich_console__: no `with self._live._lock`")
@@ -334,7 +402,7 @@ _LR_BODY_ASIS = [     # canonical form (see _prep): `_Segment` inlined, positive
 def _lr_crops(cls):
     """LiveRender.__rich_console__ is pinned statement by statement (the model of the growing shape was
     written for exactly this body); the only known variant crops the lines to the page height first"""
-    fn = _prep(find_func(cls.body, "__rich_console__"))
+    fn = _prep(find_func(cls.body, "__rich_console__"), cls)
     body = [_src(st) for st in fn.body if not (isinstance(st, ast.Expr) and isinstance(st.value, ast.Constant))]
     if body == _LR_BODY_ASIS:
         return False
@@ -353,7 +421,7 @@ def _status_facts(repo, live_cls):
     st = find_class(tree, "Status")
 
     def body(name):
-        fn = _prep(find_func(st.body, name))
+        fn = _prep(find_func(st.body, name), st)
         return [_src(x) for x in fn.body if not (isinstance(x, ast.Expr) and isinstance(x.value, ast.Constant))]
 
     init = find_func(st.body, "__init__")
@@ -433,10 +501,10 @@ def gen_live_codes(repo):
     ptree, _ = parse(repo, "rich/progress.py")
     prog = find_class(ptree, "Progress")
     ev = {
-        "live_start": _events(_prep(find_func(live.body, "start")).body, "Live.start"),
-        "live_stop": _events(_prep(find_func(live.body, "stop")).body, "Live.stop"),
-        "progress_start": _events(_prep(find_func(prog.body, "start")).body, "Progress.start"),
-        "progress_stop": _events(_prep(find_func(prog.body, "stop")).body, "Progress.stop"),
+        "live_start": _events(_prep(find_func(live.body, "start"), live).body, "Live.start"),
+        "live_stop": _events(_prep(find_func(live.body, "stop"), live).body, "Live.stop"),
+        "progress_start": _events(_prep(find_func(prog.body, "start"), prog).body, "Progress.start"),
+        "progress_stop": _events(_prep(find_func(prog.body, "stop"), prog).body, "Progress.stop"),
     }
     out = [HEADER]
     out.append("(* LiveRender.position_cursor / restore_cursor: Control(HEAD ++ UNIT * (height + OFF)) when a\n"
